@@ -131,7 +131,98 @@ def build(cfg):
     raise core.HarnessError(f"unknown config {cfg}")
 
 
+def build_pair(cfg):
+    """two views layered over ONE shared parent object (the way all sample streams of an image share the image file and
+    its partition stream) -> (view A, view B, shared parent, content A, content B, width A, width B)"""
+    S, SEC, F, MDF = _mods()
+    k = cfg["pair"]
+    if k == "offsets":
+        raw = base_bytes(16)
+        parent = io.BytesIO(raw)
+        (oa, la), (ob, lb) = cfg["a"], cfg["b"]
+        return S.StreamOffset(parent, la, oa), S.StreamOffset(parent, lb, ob), parent, raw[oa:oa + la], raw[ob:ob + lb], 0, 0
+    if k == "wrapper+offset":
+        raw = base_bytes(14)
+        parent = io.BytesIO(raw)
+        la, (ob, lb) = cfg["a"], cfg["b"]
+        return S.StreamWrapper(parent, la), S.StreamOffset(parent, lb, ob), parent, raw[:la], raw[ob:ob + lb], 0, 0
+    if k == "files":
+        # two sector-chained files of one partition window
+        sec, poff = cfg["sector"], cfg["poff"]
+        ca, cb = cfg["a"], cfg["b"]
+        psize = sec * (max(ca + cb) + 1)
+        raw = base_bytes(poff + psize + 2)
+        parent = S.StreamOffset(io.BytesIO(raw), psize, poff)
+        pl = raw[poff:poff + psize]
+        return (F.FileStream(parent, sec, list(ca)), F.FileStream(parent, sec, list(cb)), parent,
+                chain_logical(pl, sec, ca), chain_logical(pl, sec, cb), 0, 0)
+    if k == "samples":
+        # StreamOffset(StreamWrapper(FileStream(partition))) twice -- two AKAI samples of one partition
+        sec, poff = cfg["sector"], cfg["poff"]
+        (ca, fa, ha, la), (cb, fb, hb, lb) = cfg["a"], cfg["b"]
+        psize = sec * (max(ca + cb) + 1)
+        raw = base_bytes(poff + psize + 3)
+        parent = S.StreamOffset(io.BytesIO(raw), psize, poff)
+        pl = raw[poff:poff + psize]
+        A_ = S.StreamOffset(S.StreamWrapper(F.FileStream(parent, sec, list(ca)), fa), la, ha)
+        B_ = S.StreamOffset(S.StreamWrapper(F.FileStream(parent, sec, list(cb)), fb), lb, hb)
+        return A_, B_, parent, chain_logical(pl, sec, ca)[:fa][ha:ha + la], chain_logical(pl, sec, cb)[:fb][hb:hb + lb], 0, 0
+    if k == "rev+fwd":
+        # a reversed and a forward window over ONE sector-chained file
+        sec, chain = cfg["sector"], cfg["chain"]
+        raw = base_bytes(sec * (max(chain) + 1) + 1)
+        parent = F.FileStream(io.BytesIO(raw), sec, list(chain))
+        seg = chain_logical(raw, sec, chain)
+        (oa, la), (ob, lb) = cfg["a"], cfg["b"]
+        return (S.StreamReversed(S.StreamOffset(parent, la, oa), la, sample_width=2), S.StreamOffset(parent, lb, ob), parent,
+                rev_words(seg[oa:oa + la], 2), seg[ob:ob + lb], 2, 0)
+    if k == "mdf":
+        h, b, f = cfg["hbf"]
+        raw = base_bytes((h + b + f) * cfg["n"])
+        parent = MDF.MdfStream(io.BytesIO(raw))
+        lg = mdf_logical(raw, h, b, f)
+        (oa, la), (ob, lb) = cfg["a"], cfg["b"]
+        return S.StreamOffset(parent, la, oa), S.StreamOffset(parent, lb, ob), parent, lg[oa:oa + la], lg[ob:ob + lb], 0, 0
+    raise core.HarnessError(f"unknown pair {cfg}")
+
+
+def pair_configs():
+    out = []
+    for a, b in (((0, 8), (4, 8)), ((2, 6), (2, 6)), ((0, 4), (8, 4)), ((3, 9), (0, 5))):
+        out.append({"pair": "offsets", "a": list(a), "b": list(b), "s": 4})
+    out.append({"pair": "wrapper+offset", "a": 9, "b": [3, 8], "s": 4})
+    out.append({"pair": "wrapper+offset", "a": 4, "b": [4, 4], "s": 4})
+    for ca, cb in (([1, 0], [2, 3]), ([0, 2], [3, 1]), ([0, 1], [2]), ([2, 0, 1], [3])):
+        out.append({"pair": "files", "sector": 4, "poff": 5, "a": ca, "b": cb, "s": 4})
+    out.append({"pair": "files", "sector": 4, "poff": 0, "a": [0, 1], "b": [0, 1], "s": 4})     # the same file opened twice
+    for A_, B_ in ((([1, 0], 8, 2, 6), ([2, 3], 7, 1, 6)), (([0, 2], 8, 0, 8), ([3, 1], 8, 4, 4)), (([0, 1], 8, 2, 6), ([0, 1], 8, 2, 6))):
+        out.append({"pair": "samples", "sector": 4, "poff": 3, "a": list(A_), "b": list(B_), "s": 4})
+    out.append({"pair": "rev+fwd", "sector": 4, "chain": [1, 0, 2], "a": [2, 8], "b": [0, 12], "s": 4})
+    out.append({"pair": "rev+fwd", "sector": 4, "chain": [0, 1], "a": [0, 8], "b": [4, 4], "s": 4})
+    out.append({"pair": "mdf", "hbf": [2, 4, 1], "n": 3, "a": [0, 8], "b": [4, 8], "s": 4})
+    out.append({"pair": "mdf", "hbf": [2, 4, 1], "n": 3, "a": [3, 6], "b": [3, 6], "s": 4})
+    return out
+
+
+def pair_alphabet(cfg, L, quick=True):
+    s = cfg["s"]
+    if quick:
+        return [["tell"], ["seek", 0, 0], ["seek", 1, 0], ["seek", s, 0], ["seek", -1, 2], ["seek", 2, 1],
+                ["read", 1], ["read", 2], ["read", s + 1], ["read", -1]]
+    ops = [["tell"]]
+    for o, w in ((0, 0), (1, 0), (2, 0), (s, 0), (L - 1, 0), (L, 0), (-1, 2), (-2, 2), (1, 1), (2, 1), (-2, 1)):
+        ops.append(["seek", o, w])
+    for n in (0, 1, 2, s, s + 1, s + 2, -1):
+        ops.append(["read", n])
+    return ops
+
+
 def cfg_ctx(cfg):
+    if cfg.get("pair") == "mdf":
+        return MdfConsts(*cfg["hbf"])
+    if "pair" in cfg:
+        import contextlib
+        return contextlib.nullcontext()
     if cfg["kind"] == "mdf":
         return MdfConsts(*cfg["hbf"])
     if cfg["kind"] == "nest_akai" and cfg.get("mdf"):
@@ -291,7 +382,11 @@ class Check(CheckBase):
             "un-deduplicated op sequences to depth d (quick 2 / thorough 3) on fresh objects; every edge "
             "compared with a bytes-slice reference; raw-sector (MDF) view additionally for EVERY sector count 1..159 (thorough "
             "..639) x ragged tail {0,100} with the real constants and 1..63 x tail 0..6 with tiny ones, each under a fixed "
-            "probe program (size, whole content, reads across the first / middle / last sector boundaries); non-trivial = state with cursor on a sector boundary "
+            "probe program (size, whole content, reads across the first / middle / last sector boundaries); 22 configurations of TWO "
+            "views over one shared parent (two windows, wrapper + window, two chained files of one partition window, the same file "
+            "twice, two nested sample stacks, reversed + forward window over one chained file, two windows over one raw-sector view): "
+            "BFS over the union of both views' alphabets plus direct seeks / reads on the shared parent, product state, to depth 3 "
+            "with a 10-operation alphabet per view (quick) / to fixed point with the full alphabet (thorough), every view checked against its own reference; non-trivial = state with cursor on a sector boundary "
             "or at the logical end, or a read edge spanning >=1 sector boundary")
     assumptions = ["views are non-empty; whence always passed explicitly",
                    "reversed view: requested size unaligned but clipped size aligned may be accepted or rejected",
@@ -317,6 +412,9 @@ class Check(CheckBase):
                 out.append({"mode": "sizes", "hbf": [16, 2048, 288], "lo": lo, "hi": min(hi, lo + 16), "rag": rag})
         for rag in range(0, 7):
             out.append({"mode": "sizes", "hbf": [2, 4, 1], "lo": 1, "hi": 64, "rag": rag})
+        # two views over one shared parent: product graph of both views' histories (plus direct use of the parent)
+        for c in pair_configs():
+            out.append({"mode": "pairbfs", "cfg": c, "maxdepth": 3 if self.quick else 0})
         return out
 
     # --
@@ -327,7 +425,9 @@ class Check(CheckBase):
             return self._sizes(shard, rep)
         cfg = shard["cfg"]
         with cfg_ctx(cfg):
-            if shard["mode"] == "bfs":
+            if shard["mode"] == "pairbfs":
+                self._pair_bfs(cfg, rep, shard.get("maxdepth", 0))
+            elif shard["mode"] == "bfs":
                 self._bfs(cfg, rep, shard.get("maxdepth", 0))
             else:
                 self._seq(cfg, shard["depth"], rep)
@@ -419,6 +519,69 @@ class Check(CheckBase):
         rep.traces += n
         rep.notes["sequences_undeduplicated"] += len(keep) ** depth
 
+    def _pair_fresh(self, cfg):
+        a, b, parent, ca, cb, wa, wb = build_pair(cfg)
+        return [a, b, parent], [RefFile(ca, wa), RefFile(cb, wb)], (wa, wb)
+
+    def _pair_ops(self, cfg, models):
+        q = self.quick
+        ops = [["a"] + op for op in pair_alphabet(cfg, models[0].L, q)] + [["b"] + op for op in pair_alphabet(cfg, models[1].L, q)]
+        # somebody else uses the shared parent directly (the listing code does): moves it, reads from it
+        ops += [["p", "seek", 3, 0], ["p", "read", 2]] if q else [["p", "seek", 0, 0], ["p", "seek", 3, 0], ["p", "seek", 0, 2], ["p", "read", 2]]
+        return ops
+
+    def _pair_step(self, objs, models, widths, op):
+        if op[0] == "p":
+            st, val = guarded(lambda: impl_apply(objs[2], op[1:]), 5.0)
+            if st == "hang":
+                return False, "hang", {"op": op}, True
+            return True, "parent-op", None, False     # whatever the parent answers is not constrained here
+        i = 0 if op[0] == "a" else 1
+        return step(objs[i], models[i], op[1:], widths[i])
+
+    def _pair_bfs(self, cfg, rep, maxdepth=0):
+        objs, models, widths = self._pair_fresh(cfg)
+        ops = self._pair_ops(cfg, models)
+        key0 = (canon(objs[0]), canon(objs[1]), canon(objs[2]), models[0].p, models[1].p)
+        seen = {key0}
+        frontier = collections.deque([(objs, models, [])])
+        states, transitions, max_depth = 1, 0, 0
+        bounded = False
+        cap = 60000
+        while frontier:
+            ob, mo, hist = frontier.popleft()
+            for op in ops:
+                try:
+                    ob2 = copy.deepcopy(ob)       # one deepcopy of the list keeps the parent shared between the copies
+                except Exception as e:
+                    raise core.HarnessError(f"deepcopy failed: {e}")
+                mo2 = [m.clone() for m in mo]
+                ok, klass, detail, dead = self._pair_step(ob2, mo2, widths, op)
+                transitions += 1
+                other_moved = bool(hist) and hist[-1][0] != op[0]
+                rep.case({"cfg": cfg, "ops": hist + [op]}, ok=ok, klass="pair:" + klass, nontrivial=other_moved, detail=detail,
+                         sig=f"pair-{cfg['pair']}:{klass}")
+                if dead or not ok:
+                    continue
+                key = (canon(ob2[0]), canon(ob2[1]), canon(ob2[2]), mo2[0].p, mo2[1].p)
+                if key not in seen:
+                    seen.add(key)
+                    states += 1
+                    max_depth = max(max_depth, len(hist) + 1)
+                    if states > cap:
+                        raise core.HarnessError(f"pair graph did not close under {cap} states: {cfg}")
+                    if maxdepth and len(hist) + 1 >= maxdepth:
+                        bounded = True
+                        continue
+                    frontier.append((ob2, mo2, hist + [op]))
+        rep.states += states
+        rep.transitions += transitions
+        rep.traces += transitions
+        rep.notes["pair_graphs_depth_bounded" if bounded else "pair_graphs_closed"] += 1
+        rep.extra.setdefault("pair_graph_sizes", "")
+        rep.extra["pair_graph_sizes"] = f"{cfg['pair']}:{states}"
+        rep.extra["max_bfs_depth"] = max(rep.extra.get("max_bfs_depth", 0), max_depth)
+
     def _sizes(self, shard, rep):
         h, b, f = shard["hbf"]
         for n in range(shard["lo"], shard["hi"]):
@@ -446,6 +609,18 @@ class Check(CheckBase):
 
     def _replay(self, case, rep):
         cfg = case["cfg"]
+        if "pair" in cfg:
+            with cfg_ctx(cfg):
+                objs, models, widths = self._pair_fresh(cfg)
+                for op in case["ops"]:
+                    ok, klass, detail, dead = self._pair_step(objs, models, widths, op)
+                    if not ok:
+                        rep.case(case, ok=False, klass="pair:" + klass, detail=detail, sig=f"pair-{cfg['pair']}:{klass}")
+                        return
+                    if dead:
+                        break
+                rep.case(case, ok=True)
+            return
         with cfg_ctx(cfg):
             stream, model, width = self._fresh(cfg)
             for i, op in enumerate(case["ops"]):
